@@ -415,8 +415,22 @@ def regex_rules(ctx: Ctx, rule: str) -> None:
     okp = len(pat) == 1 and ast.unparse(pat[0].value) == "QEMU_ON_STATES_REGEX if cls._require_running_object else QEMU_OFF_STATES_REGEX"
     fa = [c for c in calls_in(fn.node) if call_name(c) == "findall"]
     okp = okp and len(fa) == 1 and ast.unparse(fa[0].args[0]) == "pattern"
-    app = [c for c in calls_in(fn.node) if call_name(c) == "append"]
-    okp = okp and len(app) == 1 and ast.unparse(app[0].args[0]) == "state_tuple[0]"
+    # the state name is the first group of every match: an element of the findall result, first component (indexed or unpacked)
+    def first_component(target: ast.AST, elt: ast.AST) -> bool:
+        if isinstance(target, ast.Name):
+            return ast.unparse(elt) == f"{target.id}[0]"
+        return isinstance(target, ast.Tuple) and len(target.elts) == 2 and isinstance(target.elts[0], ast.Name) and ast.unparse(elt) == target.elts[0].id
+
+    found = {ast.unparse(fa[0])} if fa else set()
+    found |= {ast.unparse(s_.targets[0]) for s_ in ast.walk(fn.node) if isinstance(s_, ast.Assign) and fa and s_.value is fa[0]}
+    named_ok = False
+    for l in ast.walk(fn.node):
+        if isinstance(l, ast.For) and ast.unparse(l.iter) in found:
+            app = [c for c in calls_in(l) if call_name(c) in ("append", "add")]
+            named_ok = len(app) == 1 and first_component(l.target, app[0].args[0]) and not any(isinstance(x, (ast.Continue, ast.Break, ast.If)) for x in ast.walk(l))
+        elif isinstance(l, (ast.ListComp, ast.SetComp)) and len(l.generators) == 1 and ast.unparse(l.generators[0].iter) in found:
+            named_ok = first_component(l.generators[0].target, l.elt) and not l.generators[0].ifs
+    okp = okp and named_ok
     ctx.record(rule + "p", "TABLE", fref, "pattern = ON if the backend requires a running object else OFF; state name = first group of each match", okp, {},
                "" if okp else "the selection of the snapshot pattern or of the state name in QCOW2Backend.show changed")
     flags = {}
@@ -539,6 +553,7 @@ MUTANTS = [
     ("multiline-lost", Q, "r\"^\\d+\\s+([\\w\\.-]+)\\s*(0 B)\\s+\\d{4}-\\d\\d-\\d\\d\", flags=re.MULTILINE", "r\"^\\d+\\s+([\\w\\.-]+)\\s*(0 B)\\s+\\d{4}-\\d\\d-\\d\\d\"", "4f"),
     ("qcow2-suffix-unanchored-regex", Q, "            if not snapshot.endswith(\".qcow2\"):\n", "            if not re.match(r\"[\\w.-]+\\.qcow2\", snapshot):\n", "5"),
     ("memory-suffix-without-dot", R, "            if not snapshot.endswith(\".state\"):\n", "            if not snapshot.endswith(\"state\"):\n", "3"),
+    ("state-name-from-size-group", Q, "            states.append(state_tuple[0])", "            states.append(state_tuple[1])", "4p"),
     ("qcow2-suffix-filter", Q, "            if not snapshot.endswith(\".qcow2\"):\n                continue\n", "", "5"),
     ("P-and-operator", Q, "states = states.intersection(image_states)", "states = states & image_states", None),
     ("P-update", R, "images_states = images_states.intersection(image_snapshots)", "images_states &= image_snapshots", None),
